@@ -175,6 +175,9 @@ func (sc *serverConn) processData(f *DataFrame) error {
 	st, ok := sc.streams[id]
 	if !ok {
 		state.SpdyErrInvalidDataStream.Inc(1)
+		if !sc.refundDiscardedData(len(f.Data)) {
+			return StreamError{id, FlowControlError}
+		}
 		return StreamError{id, InvalidStream}
 	}
 	if st.state != stateOpen {
@@ -184,6 +187,9 @@ func (sc *serverConn) processData(f *DataFrame) error {
 		// done writing). Try to stop the client from sending
 		// more DATA.
 		state.SpdyErrStreamAlreadyClosed.Inc(1)
+		if !sc.refundDiscardedData(len(f.Data)) {
+			return StreamError{id, FlowControlError}
+		}
 		return StreamError{id, StreamAlreadyClosed}
 	}
 	if st.body == nil {
@@ -193,6 +199,10 @@ func (sc *serverConn) processData(f *DataFrame) error {
 
 	// Sender sending more than they'd declared?
 	if st.declBodyBytes != -1 && st.bodyBytes+int64(len(data)) > st.declBodyBytes {
+		if !sc.refundDiscardedData(len(data)) {
+			state.SpdyErrFlowControl.Inc(1)
+			return StreamError{id, FlowControlError}
+		}
 		// "If a server receives a request where the sum of the data frame
 		// payload lengths does not equal the size of the Content-Length
 		// header, the server MUST return a 400 (Bad Request) error, see
@@ -211,6 +221,9 @@ func (sc *serverConn) processData(f *DataFrame) error {
 		st.inflow.take(int32(len(data)))
 		wrote, err := st.body.Write(data)
 		if err != nil {
+			// the octets are discarded and the stream is reset: hand back the
+			// session-level window that was just taken
+			sc.sendWindowUpdate(nil, len(data))
 			state.SpdyErrStreamAlreadyClosed.Inc(1)
 			return StreamError{id, StreamAlreadyClosed}
 		}
@@ -234,6 +247,24 @@ func (sc *serverConn) processData(f *DataFrame) error {
 		st.state = stateHalfClosedRemote
 	}
 	return nil
+}
+
+// refundDiscardedData accounts for a DATA frame that is dropped without being
+// handed to a handler: its octets still count against the session-level window
+// (the client has already spent them), so the window is enforced and the octets
+// are returned at once; otherwise the client's view of the session window
+// shrinks forever. It returns false if the frame exceeds the session window.
+func (sc *serverConn) refundDiscardedData(n int) bool {
+	sc.serveG.Check()
+	if n == 0 {
+		return true
+	}
+	if int(sc.inflow.available()) < n {
+		return false
+	}
+	sc.inflow.take(int32(n))
+	sc.sendWindowUpdate(nil, n)
+	return true
 }
 
 func (sc *serverConn) processSynStream(f *SynStreamFrame) error {
